@@ -13,6 +13,7 @@ def main(pid, tier, repo=None):
         proto.rule_rendering(ctx, infos)     # includes R-PROTO-TAS for the wrappers
         proto.rule_done_render(ctx, infos)
         proto.rule_wait(ctx, infos)
+        proto.rule_placeholder(ctx, infos)
         proto.rule_nolock(ctx, infos)
         proto.rule_spawn(ctx)
         proto.rule_render_op_results(ctx)
